@@ -1,7 +1,8 @@
 #!/venv/bin/python
 """Copy confirmed seeds from /tmp/seeds into /verif/seeded/<PID>-<k>/ with my own confirmation recorded in meta.json."""
 import json, os, shutil, sys, glob
-for cj in sorted(glob.glob('/tmp/confirm/*.json')):
+CONFIRM_DIR = sys.argv[1] if len(sys.argv) > 1 else '/tmp/confirm'
+for cj in sorted(glob.glob(CONFIRM_DIR + '/*.json')):
     try:
         c = json.load(open(cj))
     except Exception:
